@@ -129,7 +129,10 @@ def gen_program(seed, k):
     qs = [n["id"] for n in kb["nodes"] if n["kind"] in ("forall", "exists")]
     if not qs:
         return None
-    facts, nc = fol.gen_facts(rng, kb, n_consts=(2, 4), density=0.5, classical_p=0.4)
+    # every fifth program asserts CROSSED bounds for some instances: a crossed instance still is an instance -- its upper bound
+    # enters a Forall, its lower bound an Exists, exactly like any other (detection of S66 must not depend on the seed)
+    facts, nc = fol.gen_facts(rng, kb, n_consts=(2, 4), density=0.5 if k % 5 != 1 else 0.8, classical_p=0.4,
+                              crossed_p=0.0 if k % 5 != 1 else 0.5)
     rng.shuffle(facts)
     cut = len(facts) // 2
     first, later = facts[:cut], facts[cut:]
